@@ -3,12 +3,14 @@ pub mod chunker;
 pub mod hashes;
 pub mod bg4;
 pub mod xorb;
+pub mod shard;
 
 pub fn run(suite: &str, ctx: &mut Ctx) -> bool {
     match suite {
         "chunker" => chunker::run(ctx),
         "hashes" => hashes::run(ctx),
         "bg4" => bg4::run(ctx),
+        "shard" => shard::run(ctx),
         "xorb" => xorb::run_roundtrip(ctx),
         "xorb_validate" => xorb::run_validate(ctx),
         _ => return false,
